@@ -264,6 +264,9 @@ func fixedSets() map[string]map[string]string {
 		"state-choice":         {"a": h("a", "container c { choice ch { config false; default st; case st { leaf s { type string; } } leaf other { type string; } } leaf cfg { type string; } }")},
 		"opd":                  {"a": h("a", "opd:command cmd { opd:argument arg { type string; } opd:option opt { type string; opd:command sub; } } container c { leaf l { type string; } leaf s { type string; config false; } }")},
 		"opd-only":             {"a": h("a", "opd:command show { opd:command interfaces { opd:argument name { type string; } } }")},
+		// opd nodes below state and below config nodes (directly, through a grouping, through a list): they
+		// are neither config nor state, wherever they stand
+		"opd-below-state":      {"a": h("a", "grouping og { opd:command show { opd:option detail { type string; } } leaf gl { type string; } } container oper { config false; uses og; leaf s { type string; } list peer { key k; leaf k { type string; } container inner { uses og; } } } container cfg { uses og; leaf c { type string; } container st { config false; container in2 { uses og; } } }")},
 		"all-state":            {"a": h("a", "container c { config false; leaf l { type string; } list li { key k; leaf k { type string; } } }")},
 		"all-config":           {"a": h("a", "container c { leaf l { type string; default d; } list li { key k; leaf k { type string; } } }")},
 		"grouping-state":       {"a": h("a", "grouping g { leaf gs { type string; config false; } leaf gc { type string; } } container c { uses g; } container sc { config false; uses g { refine gc { description x; } } }")},
@@ -331,6 +334,10 @@ func run(c *engine.Ctx) {
 		if !base.OK() {
 			c.Add("unfiltered_compile_fails_skipped", 1)
 			c.Outcome("base:" + base.Verdict())
+			if strings.HasPrefix(name, "fixed:") {
+				// the hand-written sets are meant to compile: not to be skipped silently
+				c.Report(engine.Violation{Key: "harness-fixed-set-does-not-compile", Witness: name, Detail: fmt.Sprint(base.Err, base.Panic)})
+			}
 			return
 		}
 		recs := gen.Dump(base.MS, gen.DumpOpts{})
